@@ -19,8 +19,11 @@ BodyCodes(ref) == CASE ref.shape = "cell" -> EndCodes(ref.c1, ref.r1, ref.d[1], 
                     [] ref.shape = "area" -> EndCodes(ref.c1, ref.r1, ref.d[1], ref.d[2]) \o <<58>> \o EndCodes(ref.c2, ref.r2, ref.d[3], ref.d[4])
                     [] ref.shape = "wcol" -> Dollar(ref.d[1]) \o ColCodes(ref.c1) \o <<58>> \o Dollar(ref.d[3]) \o ColCodes(ref.c2)
 \* titles: sequence of [t |-> codes, q |-> BOOLEAN (needs quotes)]; quoteAnyway spells a word title in quotes too
+\* inside a quoted title an apostrophe is written twice ('It''s'!A1 names the sheet It's)
+RECURSIVE Doubled(_)
+Doubled(t) == IF t = <<>> THEN <<>> ELSE (IF Head(t) = 39 THEN <<39, 39>> ELSE <<Head(t)>>) \o Doubled(Tail(t))
 PrefixCodes(ref, titles, quoteAnyway) == IF ref.pre = 0 THEN <<>>
-   ELSE IF titles[ref.pre].q \/ quoteAnyway THEN <<39>> \o titles[ref.pre].t \o <<39, 33>> ELSE titles[ref.pre].t \o <<33>>
+   ELSE IF titles[ref.pre].q \/ quoteAnyway THEN <<39>> \o Doubled(titles[ref.pre].t) \o <<39, 33>> ELSE titles[ref.pre].t \o <<33>>
 RefCodes(ref, titles, quoteAnyway) == PrefixCodes(ref, titles, quoteAnyway) \o BodyCodes(ref)
 \* ---- denotation ----
 SheetOf(ref, own) == IF ref.pre = 0 THEN own ELSE ref.pre
@@ -59,9 +62,15 @@ Endpoint(t, i) ==
 RECURSIVE FindFrom(_, _, _)
 FindFrom(t, i, ch) == IF i > Len(t) THEN 0 ELSE IF t[i] = ch THEN i ELSE FindFrom(t, i + 1, ch)
 \* prefix: -> [ok, title (sequence of codes; <<>> = none), next]
+\* end of a quoted title that starts at i: the first apostrophe that is not followed by another one (a doubled one stands for itself)
+RECURSIVE CloseQuote(_, _)
+CloseQuote(t, i) == IF i > Len(t) THEN 0 ELSE IF t[i] # 39 THEN CloseQuote(t, i + 1)
+                    ELSE IF i < Len(t) /\ t[i + 1] = 39 THEN CloseQuote(t, i + 2) ELSE i
+RECURSIVE Undoubled(_)
+Undoubled(t) == IF t = <<>> THEN <<>> ELSE IF Len(t) >= 2 /\ t[1] = 39 /\ t[2] = 39 THEN <<39>> \o Undoubled(SubSeq(t, 3, Len(t))) ELSE <<Head(t)>> \o Undoubled(Tail(t))
 Prefix(t) ==
   IF Len(t) > 0 /\ t[1] = 39
-  THEN LET q == FindFrom(t, 2, 39) IN IF q = 0 \/ q = Len(t) \/ t[q + 1] # 33 THEN Bad ELSE [ok |-> TRUE, title |-> SubSeq(t, 2, q - 1), has |-> TRUE, next |-> q + 2]
+  THEN LET q == CloseQuote(t, 2) IN IF q = 0 \/ q = Len(t) \/ t[q + 1] # 33 THEN Bad ELSE [ok |-> TRUE, title |-> Undoubled(SubSeq(t, 2, q - 1)), has |-> TRUE, next |-> q + 2]
   ELSE LET b == FindFrom(t, 1, 33) IN IF b = 0 THEN [ok |-> TRUE, title |-> <<>>, has |-> FALSE, next |-> 1]
                                        ELSE [ok |-> TRUE, title |-> SubSeq(t, 1, b - 1), has |-> TRUE, next |-> b + 1]
 TitleIndex(titles, tt) == IF \E i \in 1..Len(titles) : titles[i] = tt THEN CHOOSE i \in 1..Len(titles) : titles[i] = tt ELSE 0
